@@ -408,4 +408,20 @@ func (b *Broker) deleteSession(clientID string)
   ensures other-registrations-are-kept: forall c string :: c != clientID ==> ((c in b.clients) <==> old(c in b.clients)) && b.clients[c] == old(b.clients[c])
   ghost at entry: gDelClosed := 0
   ghost at call[1] close: gDelClosed := ref(c)
+
+// ---- C15 / C14: collecting the subscribers of one trie node ----
+// a client that is reached through several matching filters (overlapping subscriptions: a/# and a/b) must end up
+// with the highest QoS among them (MQTT 3.1.1 [MQTT-3.3.5-1]); sendMsgToClient only delivers when the reported QoS
+// is at least the message's, so reporting a lower one withholds the message from a client that holds a matching
+// subscription with a QoS that is high enough
+func (node *topicNode) addClients(ans map[string]byte)
+  requires node != nil && ans != nil && ref(ans) != ref(node.clients)
+  modifies entries(ans), allof("map<string,byte>#dom"), allof("map<string,byte>#val"), allof("map<string,byte>#card")
+  ensures every-client-of-the-node-is-reported: forall c string :: (c in node.clients) ==> (c in ans)
+  ensures with-the-highest-qos-reached-so-far: forall c string :: (c in node.clients) ==> ans[c] == (old(c in ans) ? max(old(ans[c]), node.clients[c]) : node.clients[c])
+  ensures the-other-clients-stay-as-reported: forall c string :: !(c in node.clients) ==> ((c in ans) <==> old(c in ans)) && ans[c] == old(ans[c])
+  ensures the-node-is-only-read: domOf(node.clients) == old(domOf(node.clients)) && valsOf(node.clients) == old(valsOf(node.clients))
+  invariant[1] domOf(node.clients) == old(domOf(node.clients)) && valsOf(node.clients) == old(valsOf(node.clients)) && unchanged$1
+  invariant[1] forall c string :: (c in node.clients) && pos$1[c] < idx$1 ==> (c in ans) && ans[c] == (old(c in ans) ? max(old(ans[c]), node.clients[c]) : node.clients[c])
+  invariant[1] forall c string :: !((c in node.clients) && pos$1[c] < idx$1) ==> ((c in ans) <==> old(c in ans)) && ans[c] == old(ans[c])
 @*/
